@@ -176,7 +176,8 @@ end
 end Trace
 
 /-- Result of one operation: the new trace, the weight, the backward (discard) constraint
-    and whether that backward constraint is meaningful (`Switch.edit` returns branch 0's). -/
+    and whether that backward constraint is meaningful (kept for combinators whose backward request
+    the model does not describe; currently always true). -/
 structure Res where
   tr : Trace
   w : Int
@@ -418,11 +419,11 @@ def switchRun (m : Mode) (n : Nat) (i : In) (f : Mode → Nat → In → Except 
         -- `_make_edit_fresh_trace`: simulate afresh, then apply the constraint to it
         let fresh ← f .sim idx { i with old := none, args := ba }
         let r ← f .upd idx { i with old := some fresh.tr, args := ba, changed := false }
-        pure ⟨.switch i.args idx r.tr, r.w + (r.tr.score - osub.score), r.bwd, r.bwdOk && idx == 0⟩
+        pure ⟨.switch i.args idx r.tr, r.w + (r.tr.score - osub.score), r.bwd, r.bwdOk⟩
       else if oidx ≠ idx then .error .shape        -- a dishonest NoChange tag: outside the model
       else do
         let r ← f .upd idx { i with old := some osub, args := ba }
-        pure ⟨.switch i.args idx r.tr, r.w, r.bwd, r.bwdOk && idx == 0⟩
+        pure ⟨.switch i.args idx r.tr, r.w, r.bwd, r.bwdOk⟩
     | _ => .error .shape
   | .regen => .error .notSupported                 -- `assert isinstance(edit_request, Update)`
   | _ => do
